@@ -44,8 +44,9 @@ RuleOf(attrs) ==
 (***************************************************************************)
 \* the field's TypeScript type and `?`
 FieldOpt(f, of) == Has(f.attrs, "optional") \/ Has(f.attrs, "optional_ssi") \/ Has(f.attrs, "optional_nullable") \/ (of /\ TI(f.ty).isopt)
-FieldNullable(f, of) == IF Has(f.attrs, "optional") \/ Has(f.attrs, "optional_ssi") THEN FALSE
-                        ELSE IF Has(f.attrs, "optional_nullable") THEN TRUE
+\* (several `optional` attributes on one field merge by Optional::or: nullable if any of them says so)
+FieldNullable(f, of) == IF Has(f.attrs, "optional_nullable") THEN TRUE
+                        ELSE IF Has(f.attrs, "optional") \/ Has(f.attrs, "optional_ssi") THEN FALSE
                         ELSE ~of                           \* #[ts(optional_fields)] is the non-nullable form
 FieldTy(f, of) ==
   LET ti == TI(f.ty) nullable == FieldNullable(f, of) IN
